@@ -1,6 +1,63 @@
-(* Properties_C09_ebpps.v — being filled in *)
-From Coq Require Import NArith List.
-From DS Require Import EbppsCodecDefs.
-Theorem C09_ebpps_stub : sk_empty (empty_sk 3) = true.
-Proof. reflexivity. Qed.
-Print Assumptions C09_ebpps_stub.
+(* Properties_C09_ebpps.v — the EBPPS sketch image round-trips: both readers give back exactly the content that was
+   written (hence an observationally identical sketch that re-serializes to the same bytes), trailing bytes are not
+   consumed, the image has exactly the advertised size, a header of h bytes is h zero bytes followed by the same image.
+   Only statements; proofs live in EbppsCodecProofs.v.  The model is EbppsCodecDefs.v (doubles as 64-bit patterns).
+   [wf] is the content of every sketch the code can hold in a consistent state: k in 1..2^31-2; an empty sketch is
+   exactly ebpps_sketch(k); otherwise 64-bit patterns, floor(C) full items and a partial item iff C has a fractional
+   part -- the shape proved for every history over exact arithmetic in Properties_C18.v (C18_shape). *)
+From Coq Require Import NArith List Bool Lia Arith.
+From DS Require Import Word ThetaCodecDefs EbppsCodecDefs EbppsCodecProofs.
+Import ListNotations.
+Local Open Scope N_scope.
+
+(* deserialize(bytes): the image, followed by anything, is read back as the same content *)
+Theorem C09_ebpps_roundtrip_bytes : forall s, wf s -> forall rest, dec_bytes (enc s ++ rest) = Some s.
+Proof. exact roundtrip_bytes. Qed.
+
+(* deserialize(istream): the same, and the reader consumes exactly the image *)
+Theorem C09_ebpps_roundtrip_stream : forall s, wf s -> forall rest,
+  dec_stream (enc s ++ rest) = Some (s, length (enc s)).
+Proof. exact roundtrip_stream. Qed.
+
+(* hence the restored sketch re-serializes to the same image, byte for byte *)
+Theorem C09_ebpps_reserialize_identical : forall s, wf s -> forall rest s',
+  dec_bytes (enc s ++ rest) = Some s' -> enc s' = enc s.
+Proof. intros s W rest s' H. rewrite (roundtrip_bytes s W rest) in H. now injection H as <-. Qed.
+
+(* the image has exactly the advertised size *)
+Theorem C09_ebpps_size : forall s, wf s -> N.of_nat (length (enc s)) = serialized_size s.
+Proof. exact enc_size. Qed.
+
+(* serialize(h): h zero bytes, then the same image *)
+Theorem C09_ebpps_header_form : forall h s,
+  firstn h (enc_hdr h s) = repeat 0 h /\ skipn h (enc_hdr h s) = enc s /\ length (enc_hdr h s) = (h + length (enc s))%nat.
+Proof. exact enc_hdr_form. Qed.
+
+(* non-vacuity: k = 4, n = 3, W = 3.0, w_max = 1.0, rho = 1.0, C = 2.5: two full items (one of them -1) and a partial item;
+   an empty sketch; a sketch with one partial item only (C = 1 - 2^-53) *)
+Definition C09_ex : esk :=
+  {| e_k := 4; e_n := 3; e_cw := 4613937818241073152; e_wmax := 4607182418800017408; e_rho := 4607182418800017408;
+     e_c := 4612811918334230528; e_data := [7; 18446744073709551615]; e_part := Some 5 |}.
+Definition C09_ex_partial_only : esk :=
+  {| e_k := 1; e_n := 1; e_cw := 4632092954238156800; e_wmax := 4632092954238156800; e_rho := 4581421828931458171;
+     e_c := 4607182418800017407; e_data := []; e_part := Some 9 |}.
+
+Lemma C09_ex_wf : wf C09_ex.
+Proof. unfold wf, wf_sample, lt64. vm_compute. repeat split; try reflexivity; try discriminate; repeat constructor. Qed.
+Lemma C09_ex_partial_only_wf : wf C09_ex_partial_only.
+Proof. unfold wf, wf_sample, lt64. vm_compute. repeat split; try reflexivity; try discriminate; repeat constructor. Qed.
+Lemma C09_ex_empty_wf : wf (empty_sk 7).
+Proof. unfold wf. vm_compute. repeat split; try reflexivity; discriminate. Qed.
+
+Example C09_ebpps_nonvacuous :
+  length (enc C09_ex) = 72%nat /\ dec_bytes (enc C09_ex ++ [1; 2; 3]) = Some C09_ex /\
+  dec_stream (enc C09_ex ++ [1; 2; 3]) = Some (C09_ex, 72%nat) /\
+  enc (empty_sk 7) = [1; 1; 19; 4; 7; 0; 0; 0] /\ dec_stream (enc (empty_sk 7)) = Some (empty_sk 7, 8%nat) /\
+  length (enc C09_ex_partial_only) = 56%nat /\ dec_bytes (enc C09_ex_partial_only) = Some C09_ex_partial_only.
+Proof. vm_compute. repeat split. Qed.
+
+Print Assumptions C09_ebpps_roundtrip_bytes.
+Print Assumptions C09_ebpps_roundtrip_stream.
+Print Assumptions C09_ebpps_reserialize_identical.
+Print Assumptions C09_ebpps_size.
+Print Assumptions C09_ebpps_header_form.
